@@ -135,9 +135,11 @@ func batchSize(ops []wop) (int, bool) {
 
 type obs []string
 
-func modelObserve(s state, what int) obs {
+func modelObserve(s state, what int) obs { return modelObserveKeys(s, K, what) }
+
+func modelObserveKeys(s state, keys []string, what int) obs {
 	var o obs
-	for _, k := range K {
+	for _, k := range keys {
 		v, ok := s[k]
 		if what&oGet != 0 {
 			if ok {
